@@ -49,6 +49,7 @@ type Spec struct {
 	Name  string `json:"name"`
 	Text  string `json:"text"`
 	Infer bool   `json:"infer"`
+	Cfg   int    `json:"cfg,omitempty"` // generator feature configuration (featureVariant)
 }
 
 // generate returns file name → content, or an error class.
@@ -64,7 +65,7 @@ func generate(s Spec) (files map[string]string, class string) {
 	}
 	opt := gen.Options{
 		Parser:    gen.ParseOptions{InferSchemaType: s.Infer, File: location.NewFile("spec", "spec", []byte(s.Text))},
-		Generator: gen.GenerateOptions{IgnoreNotImplemented: []string{"all"}},
+		Generator: gen.GenerateOptions{IgnoreNotImplemented: []string{"all"}, Features: featureVariant(s.Cfg)},
 	}
 	g, err := gen.NewGenerator(parsed, opt)
 	if err != nil {
@@ -75,6 +76,26 @@ func generate(s Spec) (files map[string]string, class string) {
 		return nil, "write: " + regen.Classify("write", err)
 	}
 	return fs.files, "ok"
+}
+
+// featureVariant: generator feature configurations a history switches between (0 = defaults).
+func featureVariant(i int) *gen.FeatureOptions {
+	set := func(names ...string) gen.FeatureSet {
+		fs := gen.FeatureSet{}
+		for _, n := range names {
+			fs[n] = struct{}{}
+		}
+		return fs
+	}
+	switch i {
+	case 1:
+		return &gen.FeatureOptions{Enable: set("debug/example_tests"), Disable: set("paths/server", "ogen/otel")}
+	case 2:
+		return &gen.FeatureOptions{DisableAll: true, Enable: set("paths/client")}
+	case 3:
+		return &gen.FeatureOptions{Disable: set("paths/client", "webhooks/client")}
+	}
+	return nil
 }
 
 func digest(files map[string]string, class string) string {
@@ -209,7 +230,7 @@ func drawSpecs(t *rapid.T, n int) []Spec {
 		case 3:
 			out = append(out, Spec{Name: fmt.Sprintf("media%d", i), Text: drawMediaDoc(t)})
 		case 0:
-			d := specgen.GenExchangeDoc(t, specgen.ExchangeOptions{Formats: true, TimeFormat: "date-time", Validators: true, Docs: true})
+			d := specgen.GenExchangeDoc(t, specgen.ExchangeOptions{Formats: true, TimeFormat: "date-time", Validators: true, Defaults: true, Docs: true})
 			out = append(out, Spec{Name: fmt.Sprintf("exchange%d", i), Text: string(d.Render())})
 		case 1:
 			d := specgen.GenHostileDoc(t, true)
@@ -319,6 +340,15 @@ func drawHistory(pool []Spec) func(t *rapid.T) History {
 				h.Specs = append(h.Specs, drawSpecs(t, 1)...)
 			}
 		}
+		// the same document under another feature configuration is one more member of the history:
+		// every (document, configuration) pair must reproduce ITS first generation whatever ran between
+		for k, extra := 0, rapid.IntRange(0, 2).Draw(t, "cfgvariants"); k < extra; k++ {
+			sp := h.Specs[rapid.IntRange(0, n-1).Draw(t, "cfgof")]
+			sp.Cfg = rapid.IntRange(1, 3).Draw(t, "cfg")
+			sp.Name = fmt.Sprintf("%s@cfg%d", sp.Name, sp.Cfg)
+			h.Specs = append(h.Specs, sp)
+		}
+		n = len(h.Specs)
 		steps := rapid.IntRange(8, 16).Draw(t, "steps")
 		for s := 0; s < steps; s++ {
 			switch rapid.IntRange(0, 6).Draw(t, "action") {
@@ -346,7 +376,7 @@ func TestHistories(t *testing.T) {
 	// always-run history over two documents whose items are nearly all described (shared
 	// multi-paragraph texts) and half of them deprecated: the comment path of every template
 	dense := rapid.Custom(func(t *rapid.T) Spec {
-		d := specgen.GenExchangeDoc(t, specgen.ExchangeOptions{Formats: true, TimeFormat: "date-time", Validators: true, Docs: true, DenseDocs: true})
+		d := specgen.GenExchangeDoc(t, specgen.ExchangeOptions{Formats: true, TimeFormat: "date-time", Validators: true, Defaults: true, Docs: true, DenseDocs: true})
 		return Spec{Name: "dense-docs", Text: string(d.Render())}
 	})
 	shard, _ := vk.Shard()
@@ -356,6 +386,11 @@ func TestHistories(t *testing.T) {
 			{Kind: "procs", Procs: 2}, {Kind: "gen", I: 0}, {Kind: "pair", I: 1, J: 1}, {Kind: "procs", Procs: 16}, {Kind: "pair", I: 0, J: 0}, {Kind: "gen", I: 1}},
 	}}
 	regress[0].Specs[1].Name = "dense-docs-2"
+	// the first document again under two other feature configurations, interleaved with the defaults
+	v1, v3 := regress[0].Specs[0], regress[0].Specs[0]
+	v1.Cfg, v1.Name, v3.Cfg, v3.Name = 1, "dense-docs@cfg1", 3, "dense-docs@cfg3"
+	regress[0].Specs = append(regress[0].Specs, v1, v3)
+	regress[0].Actions = append(regress[0].Actions, Action{Kind: "gen", I: 2}, Action{Kind: "gen", I: 0}, Action{Kind: "gen", I: 3}, Action{Kind: "gen", I: 0}, Action{Kind: "pair", I: 2, J: 3}, Action{Kind: "gen", I: 1}, Action{Kind: "gen", I: 2})
 	vk.Rapid(u, vk.N(24, 600), regress, drawHistory(pool), func(h History) *vk.Finding {
 		u.Sample(map[string]any{"specs": specNames(h.Specs), "actions": h.Actions})
 		for _, sp := range h.Specs {
